@@ -499,7 +499,6 @@ RULE_CLAUSES = {
     'R05f': ('outcome', 'order-independent'),
     'R06b': ('outcome', 'order-independent'),
     'R06c': ('outcome', 'order-independent'),
-    'R06d': ('outcome', 'order-independent'),
     'R06e': ('outcome', 'order-independent'),
     'R11a': ('single-sweep', 'sweep-before-delegates',
              'sweep-after-mapping', 'positional-before-keyword',
@@ -577,3 +576,103 @@ def guarded(repo, rep, rule, fn, *args, default=0, **kw):
         rep.ob(rule, RUNNER + ':choose_overload/decided-by-evaluation', True,
                '%s (structural rule: %s)' % (note, e))
         return default
+
+
+# -- delegate / mapping situations (sa.delegmodel) ---------------------------
+SPECS_RULE_CLAUSES = {
+    'R04a': ('no-conversion-before-invocation', 'fresh-child-per-invocation',
+             'converted-in-that-child', 'payload-gets-converted-slots'),
+    'R05c': ('every-value-checked', 'failed-check-rejects',
+             'rejects-bad-calls', 'payload-gets-converted-slots',
+             'conversion-error-is-argument-error',
+             'map-accepts-iff-wellformed',
+             'map-checks-every-supplied-value',
+             'map-pairs-values-with-parameters'),
+}
+_dcache = {}
+
+
+def _deleg_cached(repo):
+    from sa import delegmodel
+    key = id(repo)
+    if key not in _dcache:
+        try:
+            v = delegmodel.verdicts(repo)
+            v.update(delegmodel.map_verdicts(repo))
+        except delegmodel.NotDecided as e:
+            v = {'_error': str(e)}
+        _dcache[key] = v
+    return _dcache[key]
+
+
+def second_opinion_specs(repo, rule):
+    clauses = SPECS_RULE_CLAUSES.get(rule)
+    if not clauses:
+        return None
+    v = _deleg_cached(repo)
+    if '_error' in v:
+        return None
+    if all(v[c][0] for c in clauses):
+        return ('the structural reading does not apply to this spelling of '
+                'get_delegate / map_args; decided instead by abstract '
+                'evaluation on %d definition/call situations (clauses %s '
+                'hold in all of them)' % (
+                    v['_situations'] + v['_map_situations'],
+                    ', '.join(clauses)))
+    return None
+
+
+_install_runner = install
+
+
+def install(repo, rep):
+    _install_runner(repo, rep)
+    runner_arb = rep.arbiter
+
+    def arb(rule, site):
+        if site.startswith('yaql.language.specs:FunctionDefinition.'
+                           'get_delegate') or site.startswith(
+                'yaql.language.specs:FunctionDefinition.map_args'):
+            return second_opinion_specs(repo, rule)
+        return runner_arb(rule, site)
+    rep.arbiter = arb
+
+
+def guarded_specs(repo, rep, rule, fn, *args, default=0, **kw):
+    from sa.model import AnalysisError
+    try:
+        return fn(*args, **kw)
+    except AnalysisError as e:
+        note = second_opinion_specs(repo, rule)
+        if not note:
+            raise
+        rep.ob(rule, 'yaql.language.specs:FunctionDefinition.get_delegate/'
+               'decided-by-evaluation', True,
+               '%s (structural rule: %s)' % (note, e))
+        return default
+
+
+def report_situations(repo, rep, rule, clauses, what):
+    """The clauses as obligations of their own (primary evidence, not only
+    a second opinion).  A procedure the evaluator cannot interpret is noted,
+    not reported: the structural rules then stand alone."""
+    rv = _verdicts_cached(repo)
+    dv = _deleg_cached(repo)
+    n = 0
+    for c in clauses:
+        src = rv if c in rv else dv if c in dv else None
+        if src is None:
+            err = rv.get('_error') if c in sum(
+                RULE_CLAUSES.values(), ()) else dv.get('_error')
+            rep.note('%s/%s: not decided by the situations (%s)' % (
+                rule, c, err or 'clause unavailable'))
+            continue
+        ok, why = src[c]
+        n += 1
+        rep.ob(rule, 'situations/' + c, ok,
+               '%s: %s' % (what, why) if not ok else
+               'holds in every situation', nontrivial=True)
+    rep.count(**{'situations_' + rule.lower(): (
+        rv.get('_situations', 0), dv.get('_situations', 0),
+        dv.get('_map_situations', 0))})
+    return n
